@@ -12,6 +12,7 @@ class RequestStreamRequester(StreamHandler, DefaultPublisherSubscription, Reques
     def __init__(self, socket: RSocket, payload: Payload):
         super().__init__(socket)
         self.payload = payload
+        self._finished = False
 
     def setup(self):
         pass
@@ -21,11 +22,21 @@ class RequestStreamRequester(StreamHandler, DefaultPublisherSubscription, Reques
         self._send_stream_request(self.payload)
 
     def cancel(self):
+        if self._finished:
+            return  # cancelled or terminated already: nothing may follow on this stream
+
         self.send_cancel()
         self._finish_stream()
 
     def request(self, n: int):
+        if self._finished:
+            return  # Subscription.request() after cancel() or termination is a no-op
+
         self.send_request_n(n)
+
+    def _finish_stream(self):
+        self._finished = True
+        super()._finish_stream()
 
     def frame_received(self, frame: Frame):
         if isinstance(frame, PayloadFrame):
